@@ -16,6 +16,10 @@ Definition is_ctok (t : tok) : bool := match t with TOut _ | TErr _ => true | _ 
 Definition npull (l : list event) : nat := length (acc l).
 Definition nyield (l : list event) : nat := length (filter is_ctok (handed l)).
 
+Definition nprodc (l : list event) : nat := length (filter is_ctok (prodF l)).
+Lemma nprodc_app a b : nprodc (a ++ b) = nprodc a + nprodc b.
+Proof. unfold nprodc. rewrite prodF_app, filter_app, app_length. reflexivity. Qed.
+
 Lemma npull_app a b : npull (a ++ b) = npull a + npull b.
 Proof. unfold npull. rewrite acc_app, app_length. reflexivity. Qed.
 Lemma nyield_app a b : nyield (a ++ b) = nyield a + nyield b.
@@ -26,7 +30,7 @@ Proof. unfold nyield. rewrite handed_app, filter_app, app_length. reflexivity. Q
 Fixpoint bp (n : nat) (l : list event) : Prop :=
   match l with
   | [] => True
-  | e :: l' => bp n l' /\ (acc_ev e <> [] -> npull l' < n + nyield l')
+  | e :: l' => bp n l' /\ (acc_ev e <> [] -> npull l' < n + nyield l' /\ nyield l' <= nprodc l')
   end.
 
 Lemma acc_upp l : upp l = [] -> acc l = [].
@@ -41,28 +45,26 @@ Proof.
   apply app_eq_nil in Ha as [Ha1 Ha2]. split; [apply IH; auto|]. intros Hne. contradiction.
 Qed.
 
-Lemma bp_split n post e pre : bp n (post ++ e :: pre) -> acc_ev e <> [] -> npull pre < n + nyield pre.
+Lemma bp_split n post e pre :
+  bp n (post ++ e :: pre) -> acc_ev e <> [] -> npull pre < n + nyield pre /\ nyield pre <= nprodc pre.
 Proof. induction post as [|x post IH]; simpl; intros H He; [destruct H as [_ H]; auto|destruct H as [H _]; auto]. Qed.
 
 (** the log grows by a piece that pulls nothing and hands nothing out *)
-Definition psuf (w w' : world) : Prop := exists l, log w' = l ++ log w /\ acc l = [] /\ handed l = [].
+Definition psuf (w w' : world) : Prop :=
+  exists l, log w' = l ++ log w /\ acc l = [] /\ handed l = [] /\ nprodc l = 0.
 
 Lemma psuf_refl w : psuf w w. Proof. exists []. auto. Qed.
 Lemma psuf_trans w1 w2 w3 : psuf w1 w2 -> psuf w2 w3 -> psuf w1 w3.
 Proof.
-  intros (l1 & H1 & A1 & B1) (l2 & H2 & A2 & B2). exists (l2 ++ l1).
-  rewrite H2, H1, app_assoc, acc_app, handed_app, A1, A2, B1, B2. auto.
-Qed.
-
-Lemma psuf_combine w w' :
-  usuf w w' -> (exists l, log w' = l ++ log w /\ handed l = []) -> psuf w w'.
-Proof.
-  intros (l1 & H1 & A) (l2 & H2 & B). rewrite H1 in H2. apply app_inv_tail in H2. subst l2.
-  exists l1. split; auto. split; auto. apply acc_upp; auto.
+  intros (l1 & H1 & A1 & B1 & C1) (l2 & H2 & A2 & B2 & C2). exists (l2 ++ l1).
+  rewrite H2, H1, app_assoc, acc_app, handed_app, nprodc_app, A1, A2, B1, B2, C1, C2. auto.
 Qed.
 
 Lemma psuf_ub w w' : usuf w w' -> bsuf w w' -> psuf w w'.
-Proof. intros U (l & H & _ & _ & C). apply psuf_combine; auto. exists l. auto. Qed.
+Proof.
+  intros (l1 & H1 & A) (l2 & H2 & B & _ & C). rewrite H1 in H2. apply app_inv_tail in H2. subst l2.
+  exists l1. splits; auto; [apply acc_upp; auto|unfold nprodc; rewrite B; reflexivity].
+Qed.
 
 Definition ctoks (l : list tok) : Prop := Forall (fun t => is_ctok t = true) l.
 
@@ -80,7 +82,7 @@ Hypothesis HP : params_ok P.
 
 (** ** one poll of the upstream *)
 Lemma up_poll_piece try u t w :
-  exists l, log (snd (up_poll try u t w)) = l ++ log w /\ handed l = [] /\
+  exists l, log (snd (up_poll try u t w)) = l ++ log w /\ handed l = [] /\ nprodc l = 0 /\
     match snd (fst (up_poll try u t w)) with
     | UPItem c => l = [EUpPoll (UAItem (cid c))]
     | UPErr e => acc l = [] /\ is_ctok e = false
@@ -90,10 +92,11 @@ Proof.
   unfold up_poll. destruct (us_ended u); cbn [fst snd]; [eexists [_; _]; splits; reflexivity|].
   destruct (us_steps u) as [|[s|a| |] rest]; cbn [fst snd]; try (eexists [_]; splits; reflexivity).
   - pose proof (usuf_do_acts (Some (HTask t)) a (emit (EUpPoll UAPend) w)) as (l1 & H1 & A1).
-    pose proof (bsuf_do_acts (Some (HTask t)) a (emit (EUpPoll UAPend) w)) as (l2 & H2 & _ & _ & C2).
+    pose proof (bsuf_do_acts (Some (HTask t)) a (emit (EUpPoll UAPend) w)) as (l2 & H2 & B2 & _ & C2).
     rewrite H1 in H2. apply app_inv_tail in H2. subst l2.
     exists (l1 ++ [EUpPoll UAPend]). rewrite H1. simpl. rewrite <- app_assoc. splits; auto.
     + rewrite handed_app, C2. reflexivity.
+    + rewrite nprodc_app. unfold nprodc. rewrite B2. reflexivity.
     + rewrite acc_app, (acc_upp _ A1). reflexivity.
   - destruct try; cbn [fst snd]; eexists [_]; splits; reflexivity.
 Qed.
@@ -103,15 +106,17 @@ Proof. apply psuf_ub; [apply usuf_q_push|apply q_push_tok]. Qed.
 
 (** the invariant between events: [L] is the whole history so far, newest first *)
 Definition BI (N : nat) (q : queue) (L : list event) : Prop :=
-  bp N L /\ npull L = nyield L + q_len q /\ ctoks (parked_q q).
+  bp N L /\ npull L = nyield L + q_len q /\ ctoks (parked_q q) /\ nprodc L = nyield L + length (parked_q q).
 
 Lemma BI_psuf N q q' w w' H0 :
   psuf w w' -> q_len q' = q_len q -> parked_q q' = parked_q q ->
   BI N q (log w ++ H0) -> BI N q' (log w' ++ H0).
 Proof.
-  intros (l & Hl & A & B) Hq Hp (I1 & I2 & I3). rewrite Hl, <- app_assoc. unfold BI.
-  rewrite npull_app, nyield_app. unfold npull at 1, nyield at 1. rewrite A, B, Hq, Hp. simpl.
-  splits; auto. apply bp_quiet; auto.
+  intros (l & Hl & A & B & C) Hq Hp (I1 & I2 & I3 & I4). rewrite Hl, <- app_assoc. unfold BI.
+  rewrite npull_app, nyield_app, nprodc_app.
+  assert (Ea : npull l = 0) by (unfold npull; rewrite A; reflexivity).
+  assert (Eb : nyield l = 0) by (unfold nyield; rewrite B; reflexivity).
+  rewrite Ea, Eb, C, Hq, Hp. simpl. splits; auto. apply bp_quiet; auto.
 Qed.
 
 (** ** the fill loop *)
@@ -129,7 +134,7 @@ Proof.
     simpl in Hul.
     pose proof (@winv_up_poll own None (ad_try a) u t w Hul Hw) as Hup.
     pose proof (@up_poll_fused (ad_try a) u t w Hul) as Hfu.
-    pose proof (up_poll_piece (ad_try a) u t w) as (l & Hl & Hh & Hm).
+    pose proof (up_poll_piece (ad_try a) u t w) as (l & Hl & Hh & Hpc & Hm).
     destruct (up_poll (ad_try a) u t w) as [[u' r] w1]. cbn [fst snd] in *.
     assert (Hq : forall q', q_len q' = q_len (ad_q a) -> parked_q q' = parked_q (ad_q a) -> acc l = [] ->
                  BI (q_cap (ad_q a)) q' (log w1 ++ H0)).
@@ -143,11 +148,16 @@ Proof.
       destruct Hs as (A & B & C & D & E).
       specialize (IH {| ad_try := ad_try a; ad_up := Some u'; ad_q := q' |} w2). cbn [ad_q ad_up] in IH.
       rewrite D in IH. apply IH; auto.
-      destruct HI as (I1 & I2 & I3).
-      destruct Hps as (l2 & Hl2 & A2 & B2). rewrite Hl2, Hl, <- app_assoc. unfold BI.
-      rewrite npull_app, nyield_app. unfold npull at 1, nyield at 1. rewrite A2, B2, E, Hpk. simpl.
+      destruct HI as (I1 & I2 & I3 & I4).
+      destruct Hps as (l2 & Hl2 & A2 & B2 & C2). rewrite Hl2, Hl, <- app_assoc. unfold BI.
+      rewrite npull_app, nyield_app, nprodc_app.
+      assert (Ea : npull l2 = 0) by (unfold npull; rewrite A2; reflexivity).
+      assert (Eb : nyield l2 = 0) by (unfold nyield; rewrite B2; reflexivity).
+      rewrite Ea, Eb, C2, E, Hpk. simpl.
       change (EUpPoll (UAItem (cid c)) :: log w ++ H0) with ([EUpPoll (UAItem (cid c))] ++ (log w ++ H0)).
-      rewrite npull_app, nyield_app. unfold npull at 1, nyield at 1. simpl.
+      rewrite npull_app, nyield_app, nprodc_app.
+      change (npull [EUpPoll (UAItem (cid c))]) with 1. change (nyield [EUpPoll (UAItem (cid c))]) with 0.
+      change (nprodc [EUpPoll (UAItem (cid c))]) with 0. simpl.
       splits; auto; [|lia].
       apply bp_quiet; auto. simpl. split; auto. intros _. lia.
     + split; auto.
@@ -159,7 +169,9 @@ Qed.
 Lemma q_poll_piece own k q t w :
   k <> KSrc -> winv own None w -> q_ok own q -> ctoks (parked_q q) ->
   let '(q', sp, w') := q_poll P k q t w in
-  psuf w w' /\ ctoks (parked_q q') /\ ctoks (sp_tok sp)
+  (exists l, log w' = l ++ log w /\ acc l = [] /\ handed l = []
+             /\ length (parked_q q') + length (sp_tok sp) = length (parked_q q) + nprodc l)
+  /\ ctoks (parked_q q') /\ ctoks (sp_tok sp)
   /\ q_len q = q_len q' + length (sp_tok sp).
 Proof.
   intros Hk Hw Hok Hpk.
@@ -169,21 +181,25 @@ Proof.
   destruct (q_poll P k q t w) as [[q' sp] w']. cbn [fst snd] in *.
   destruct Hs as (_ & _ & _ & _ & Hm).
   destruct Ht as (l & Hl & _ & Hh & Hperm).
-  assert (Hps : psuf w w') by (apply psuf_combine; auto; exists l; auto).
   destruct Hu as (l1 & Hl1 & A1). rewrite Hl1 in Hl. apply app_inv_tail in Hl. subst l1.
+  pose proof (prodF_ctoks l A1) as Hpc.
   assert (Hall : ctoks (parked_q q' ++ sp_tok sp)).
   { unfold ctoks. eapply Permutation_Forall; [apply Permutation_sym; exact Hperm|].
-    apply Forall_app. split; auto. apply prodF_ctoks; auto. }
+    apply Forall_app. split; auto. }
+  assert (Hf : forall k0, ctoks k0 -> length (filter is_ctok k0) = length k0).
+  { induction k0 as [|x k0 IHk]; simpl; auto. intros Hc. inversion Hc as [|? ? Hx Hc']; subst. rewrite Hx. simpl. auto. }
   apply Forall_app in Hall as [Ha Hb]. splits; auto.
-  destruct sp; simpl in *; lia.
+  - exists l. splits; auto; [apply acc_upp; auto|].
+    unfold nprodc. rewrite (Hf _ Hpc). apply Permutation_length in Hperm. rewrite !app_length in Hperm. exact Hperm.
+  - destruct sp; simpl in *; lia.
 Qed.
 
 Lemma emit_ret_piece r w :
-  exists l, log (emit_ret r w) = l ++ log w /\ acc l = [] /\ handed l = ret_toks r.
+  exists l, log (emit_ret r w) = l ++ log w /\ acc l = [] /\ handed l = ret_toks r /\ nprodc l = 0.
 Proof.
-  destruct (emit_ret_tok r w) as (l & Hl & _ & _ & Hh).
+  destruct (emit_ret_tok r w) as (l & Hl & Hp & _ & Hh).
   destruct (usuf_emit_ret r w) as (l1 & Hl1 & A). rewrite Hl1 in Hl. apply app_inv_tail in Hl. subst l1.
-  exists l. splits; auto. apply acc_upp; auto.
+  exists l. splits; auto; [apply acc_upp; auto|unfold nprodc; rewrite Hp; reflexivity].
 Qed.
 
 (** ** one poll of the adapter, return event included *)
@@ -199,27 +215,34 @@ Proof.
   destruct (fill P (S (q_cap (ad_q a))) a t w) as [[a1 e] w1].
   destruct Hs as (A & B & C & D & E & F & G & U); [lia|auto|].
   destruct Hb as [Hb He].
-  assert (Hret : forall r q' w2 k, psuf w1 w2 -> ctoks (parked_q q') -> ret_toks r = k ->
+  assert (Hret : forall r q' w2 k l2, log w2 = l2 ++ log w1 -> acc l2 = [] -> handed l2 = [] ->
+                   length (parked_q q') + length (filter is_ctok k) = length (parked_q (ad_q a1)) + nprodc l2 ->
+                   ctoks (parked_q q') -> ret_toks r = k ->
                    q_len (ad_q a1) = q_len q' + length (filter is_ctok k) ->
                    BI (q_cap (ad_q a)) q' (log (emit_ret r w2) ++ H0)).
-  { intros r q' w2 k (l2 & Hl2 & A2 & B2) Hpk Hr Hq.
-    destruct (emit_ret_piece r w2) as (l3 & Hl3 & A3 & B3).
-    destruct Hb as (I1 & I2 & I3). rewrite Hl3, Hl2, <- !app_assoc. unfold BI.
-    rewrite !npull_app, !nyield_app. unfold npull at 1 2, nyield at 1 2. rewrite A2, B2, A3, B3, Hr. simpl.
-    rewrite npull_app, nyield_app in I2.
-    splits; auto; [|lia]. apply bp_quiet; auto. apply bp_quiet; auto. }
+  { intros r q' w2 k l2 Hl2 A2 B2 C2 Hpk Hr Hq.
+    destruct (emit_ret_piece r w2) as (l3 & Hl3 & A3 & B3 & C3).
+    destruct Hb as (I1 & I2 & I3 & I4). rewrite Hl3, Hl2, <- !app_assoc. unfold BI.
+    rewrite (npull_app l3), (npull_app l2), (nyield_app l3), (nyield_app l2), (nprodc_app l3), (nprodc_app l2).
+    assert (Ea2 : npull l2 = 0) by (unfold npull; rewrite A2; reflexivity).
+    assert (Eb2 : nyield l2 = 0) by (unfold nyield; rewrite B2; reflexivity).
+    assert (Ea3 : npull l3 = 0) by (unfold npull; rewrite A3; reflexivity).
+    assert (Eb3 : nyield l3 = length (filter is_ctok k)) by (unfold nyield; rewrite B3, Hr; reflexivity).
+    rewrite Ea2, Eb2, Ea3, Eb3, C3. simpl.
+    splits; auto; [|lia|lia]. apply bp_quiet; auto. apply bp_quiet; auto. }
   destruct e as [tk|].
-  - apply (Hret (RetItem tk) (ad_q a1) w1 [tk]); auto; [apply psuf_refl|apply Hb|]. simpl. rewrite He. simpl. lia.
+  - apply (Hret (RetItem tk) (ad_q a1) w1 [tk] []); auto;
+      try (cbn [filter length]; rewrite He; unfold nprodc; cbn; lia). apply Hb.
   - assert (Hk : ad_kind a1 <> KSrc) by (unfold ad_kind; destruct (ad_try a1); discriminate).
-    pose proof (@q_poll_piece own (ad_kind a1) (ad_q a1) t w1 Hk A B (proj2 (proj2 Hb))) as Hq.
+    pose proof (@q_poll_piece own (ad_kind a1) (ad_q a1) t w1 Hk A B (proj1 (proj2 (proj2 Hb)))) as Hq.
     destruct (q_poll P (ad_kind a1) (ad_q a1) t w1) as [[q sp] w2].
-    destruct Hq as (Q1 & Q2 & Q3 & Q4).
+    destruct Hq as ((l2 & Hl2 & A2 & B2 & C2) & Q2 & Q3 & Q4).
     assert (Hf : forall k, ctoks k -> length (filter is_ctok k) = length k).
     { induction k as [|x k IHk]; simpl; auto. intros Hc. inversion Hc as [|? ? Hx Hc']; subst. rewrite Hx. simpl. auto. }
     destruct sp as [| |tk c]; cbn [ad_q ad_up ad_try].
-    + apply (Hret RetPending q w2 []); auto.
-    + destruct (ad_up a1); cbn [ad_q]; [apply (Hret RetPending q w2 [])|apply (Hret RetNone q w2 [])]; auto.
-    + apply (Hret (RetItem tk) q w2 [tk]); auto. cbn [sp_tok] in *. rewrite (Hf _ Q3). exact Q4.
+    + apply (Hret RetPending q w2 [] l2); auto.
+    + destruct (ad_up a1); cbn [ad_q]; [apply (Hret RetPending q w2 [] l2)|apply (Hret RetNone q w2 [] l2)]; auto.
+    + cbn [sp_tok] in *. apply (Hret (RetItem tk) q w2 [tk] l2); auto; rewrite (Hf _ Q3); auto.
 Qed.
 
 (** ** one operation *)
@@ -230,7 +253,7 @@ Definition HI (N : nat) (k : coll) (L : list event) : Prop :=
 
 Lemma HI_psuf N k w w' H0 : psuf w w' -> HI N k (log w ++ H0) -> HI N k (log w' ++ H0).
 Proof.
-  intros Hp [Hb Hm]. destruct Hp as (l & Hl & A & B). split.
+  intros Hp [Hb Hm]. destruct Hp as (l & Hl & A & B & C). split.
   - rewrite Hl, <- app_assoc. apply bp_quiet; auto.
   - destruct k; auto. destruct Hm as [Hc HIb]. split; auto.
     eapply BI_psuf; [exists l; splits; eauto|reflexivity|reflexivity|exact HIb].
@@ -310,14 +333,17 @@ Proof. induction l as [|e l IH]; simpl; auto. rewrite npull_app, IH. change (e :
 Lemma nyield_rev l : nyield (rev l) = nyield l.
 Proof. induction l as [|e l IH]; simpl; auto. rewrite nyield_app, IH. change (e :: l) with ([e] ++ l). rewrite nyield_app. simpl. lia. Qed.
 
+Lemma nprodc_rev l : nprodc (rev l) = nprodc l.
+Proof. induction l as [|e l IH]; simpl; auto. rewrite nprodc_app, IH. change (e :: l) with ([e] ++ l). rewrite nprodc_app. simpl. lia. Qed.
+
 Definition ad_ctype (t : ctype) : bool := match t with TBU | TTBU | TBO | TTBO => true | _ => false end.
 
 (** *** C16 (and the limit half of C09) at every moment of every history: when an item is
     pulled from upstream, fewer than [n] earlier items are pulled and not yet yielded *)
-Theorem pulls_only_below_the_limit ty p inits ups rest pre c post :
+Theorem pulls_respect_both_limits ty p inits ups rest pre c post :
   ad_ctype ty = true ->
   hist_of (OBuild ty p inits ups :: rest) = pre ++ EUpPoll (UAItem c) :: post ->
-  npull pre < p_cap p + nyield pre.
+  npull pre < p_cap p + nyield pre /\ nyield pre <= nprodc pre.
 Proof.
   intros Hty Hh.
   set (s1 := fst (step_op P init_state (OBuild ty p inits ups))).
@@ -329,43 +355,63 @@ Proof.
     pose proof (@build_up P ty p inits ups w0) as Hb.
     pose proof (@build_tok P ty p inits ups w0) as Ht.
     unfold build in *.
-    assert (Hnil : forall w', psuf w0 w' -> bp (p_cap p) (log w' ++ []) /\ npull (log w' ++ []) = 0 /\ nyield (log w' ++ []) = 0).
-    { intros w' (l & Hl & A & B). rewrite Hl. unfold w0 at 1. simpl. rewrite !app_nil_r.
+    assert (Hnil : forall w', psuf w0 w' -> bp (p_cap p) (log w' ++ []) /\ npull (log w' ++ []) = 0 /\ nyield (log w' ++ []) = 0
+                                          /\ nprodc (log w' ++ []) = 0).
+    { intros w' (l & Hl & A & B & C). rewrite Hl. unfold w0 at 1. simpl. rewrite !app_nil_r.
       unfold npull, nyield. rewrite A, B. splits; auto. rewrite <- (app_nil_r l). apply bp_quiet; simpl; auto. }
     destruct ty; try discriminate.
     - pose proof (@fub_new_spec (cnt []) (p_cap p) w0 Hw0) as Hn.
       destruct (fub_new (p_cap p) w0) as [f w1]. destruct Hn as (_ & _ & _ & Hcap & Hlen).
       destruct Hb as (Hu & _); [reflexivity|]. destruct Ht as (_ & _ & Hbs); [reflexivity|]. cbn [fst snd] in *.
-      destruct (Hnil w1 (@psuf_ub _ _ Hu Hbs)) as (N1 & N2 & N3).
+      destruct (Hnil w1 (@psuf_ub _ _ Hu Hbs)) as (N1 & N2 & N3 & N4).
       split; [exact I|]. split; auto. cbn [st_coll st_world ad_q q_cap]. split; [exact Hcap|].
-      unfold BI. cbn [q_len parked_q]. rewrite N2, N3, Hlen. splits; auto. constructor.
+      unfold BI. cbn [q_len parked_q]. rewrite N2, N3, N4, Hlen. splits; auto. constructor.
     - pose proof (@fob_new_spec P (cnt []) (p_cap p) 0%Z w0 Hw0) as Hn.
       destruct (fob_new P (p_cap p) 0%Z w0) as [[q|] w1]; [|contradiction].
       destruct Hn as (_ & _ & Hcap & Hlen).
       destruct Hb as (Hu & _); [reflexivity|]. destruct Ht as (_ & Hpk & Hbs); [reflexivity|]. cbn [fst snd] in *.
-      destruct (Hnil w1 (@psuf_ub _ _ Hu Hbs)) as (N1 & N2 & N3).
+      destruct (Hnil w1 (@psuf_ub _ _ Hu Hbs)) as (N1 & N2 & N3 & N4).
       split; [exact I|]. split; auto. cbn [st_coll st_world ad_q q_cap]. split; [exact Hcap|].
-      cbn [parked_of ad_q parked_q] in Hpk. unfold BI. cbn [q_len parked_q]. rewrite N2, N3, Hlen, Hpk. splits; auto. constructor.
+      cbn [parked_of ad_q parked_q] in Hpk. unfold BI. cbn [q_len parked_q]. rewrite N2, N3, N4, Hlen, Hpk. splits; auto. constructor.
     - pose proof (@fub_new_spec (cnt []) (p_cap p) w0 Hw0) as Hn.
       destruct (fub_new (p_cap p) w0) as [f w1]. destruct Hn as (_ & _ & _ & Hcap & Hlen).
       destruct Hb as (Hu & _); [reflexivity|]. destruct Ht as (_ & _ & Hbs); [reflexivity|]. cbn [fst snd] in *.
-      destruct (Hnil w1 (@psuf_ub _ _ Hu Hbs)) as (N1 & N2 & N3).
+      destruct (Hnil w1 (@psuf_ub _ _ Hu Hbs)) as (N1 & N2 & N3 & N4).
       split; [exact I|]. split; auto. cbn [st_coll st_world ad_q q_cap]. split; [exact Hcap|].
-      unfold BI. cbn [q_len parked_q]. rewrite N2, N3, Hlen. splits; auto. constructor.
+      unfold BI. cbn [q_len parked_q]. rewrite N2, N3, N4, Hlen. splits; auto. constructor.
     - pose proof (@fob_new_spec P (cnt []) (p_cap p) 0%Z w0 Hw0) as Hn.
       destruct (fob_new P (p_cap p) 0%Z w0) as [[q|] w1]; [|contradiction].
       destruct Hn as (_ & _ & Hcap & Hlen).
       destruct Hb as (Hu & _); [reflexivity|]. destruct Ht as (_ & Hpk & Hbs); [reflexivity|]. cbn [fst snd] in *.
-      destruct (Hnil w1 (@psuf_ub _ _ Hu Hbs)) as (N1 & N2 & N3).
+      destruct (Hnil w1 (@psuf_ub _ _ Hu Hbs)) as (N1 & N2 & N3 & N4).
       split; [exact I|]. split; auto. cbn [st_coll st_world ad_q q_cap]. split; [exact Hcap|].
-      cbn [parked_of ad_q parked_q] in Hpk. unfold BI. cbn [q_len parked_q]. rewrite N2, N3, Hlen, Hpk. splits; auto. constructor. }
+      cbn [parked_of ad_q parked_q] in Hpk. unfold BI. cbn [q_len parked_q]. rewrite N2, N3, N4, Hlen, Hpk. splits; auto. constructor. }
   destruct H1 as [Hk1 HI1].
   pose proof (@backpressure_log_from (p_cap p) s1 rest _ Hk1 Hs1 HI1) as [Hbp _].
   assert (E : rlog_from s1 rest (log (st_world s1) ++ []) = rev (hist_of (OBuild ty p inits ups :: rest))).
   { unfold rlog_from, hist_of. cbn [run_logs]. cbn [is_dead init_state st_coll]. fold s1.
     rewrite rlog_rev. cbn [app flat_map]. rewrite rev_app_distr, rev_involutive, app_nil_r. reflexivity. }
   rewrite E, Hh, rev_app_distr in Hbp. cbn [rev] in Hbp. rewrite <- app_assoc in Hbp. cbn [app] in Hbp.
-  apply bp_split in Hbp; [|simpl; discriminate]. rewrite npull_rev, nyield_rev in Hbp. exact Hbp.
+  apply bp_split in Hbp; [|simpl; discriminate]. rewrite npull_rev, nyield_rev, nprodc_rev in Hbp. exact Hbp.
+Qed.
+
+(** C16: pulled-but-unyielded items (running futures + parked outputs) *)
+Corollary pulls_only_below_the_limit ty p inits ups rest pre c post :
+  ad_ctype ty = true ->
+  hist_of (OBuild ty p inits ups :: rest) = pre ++ EUpPoll (UAItem c) :: post ->
+  npull pre < p_cap p + nyield pre.
+Proof. intros Hty Hh. apply (@pulls_respect_both_limits ty p inits ups rest pre c post Hty Hh). Qed.
+
+(** C09: unfinished futures.  [nprodc pre] counts the futures that have answered Ready (their
+    output, [TOut c] / [TErr c], produced) before this moment, so [npull pre - nprodc pre] is the
+    number of unfinished futures held at the instant of the pull: it is below [n], hence never
+    above [n] at any instant (it only grows at a pull) *)
+Corollary pulls_only_while_fewer_than_n_unfinished ty p inits ups rest pre c post :
+  ad_ctype ty = true ->
+  hist_of (OBuild ty p inits ups :: rest) = pre ++ EUpPoll (UAItem c) :: post ->
+  npull pre < p_cap p + nprodc pre.
+Proof.
+  intros Hty Hh. destruct (@pulls_respect_both_limits ty p inits ups rest pre c post Hty Hh) as [H1 H2]. lia.
 Qed.
 
 End WithParams.
